@@ -19,22 +19,32 @@ RULE = ("Cases are built from 1-D term 'atoms' whose value at every integer is a
         "d when |r| <= 1/2, a for negative r; algebraic: r+s, r, e, r+s+e, l(u,v); alternating: r+s, r, s, a, l, sidi; "
         "super-linear: r+s, d, s, l), short and long method names, strict on/off; nprod of products with closed forms "
         "(Gamma quotients, telescoping, prod(1+r^(2^k)), doubly infinite cosh/cos form, reflected ranges), options "
-        "default/r/e/nsum=True; limit of (1+x/n)^n, sin(ax)/(bx), rational functions at +-inf, removable singularities, "
-        "(ax-sin ax)/x^3, (1-cos ax)/x^2, log(1+ax)/x with direction and exp options; richardson on sequences that are "
-        "exactly polynomial in 1/n (algebraic exactness) and on partial sums, shanks on exact mixtures of m<=3 "
-        "geometric sequences (exactness of column 2m-1, table extension) and on partial sums following its docstring, "
-        "levin (levin/sidi, u/t/v, all four update interfaces) and cohen_alt (both interfaces) driven by the loop of "
-        "their docstrings; sumem on [a,inf] with a ~ p/4 and sumap. Oracle: closed forms (Hurwitz zeta, digamma, Gamma, "
-        "exp, hyperbolic functions) evaluated by the frozen reference package mpref (mpmath 1.3.0) at 3p+100 bits plus "
-        "exact Fraction corrections for shifted start indices, or exact Fractions alone. Tolerance 2^(10-p) relative "
-        "to the value (to the sum of absolute values for multi-term/multi-dimensional cases) plus the absolute 2^(1-p) "
-        "that nsum's tol option documents; precisions 30..300 bits. NoConvergence with strict=True and the documented "
-        "ValueError('levin: zero weight') are inconclusive; a silently wrong value is a violation. Non-trivial = "
-        "infinite range, or dimension >= 2, or an explicit acceleration method / direct extrapolator call.")
+        "default/r/e/l/nsum=True; limit of (1+x/n)^n, sin(ax)/(bx), rational functions at +-inf, (an+sqrt(n^2+c))/(bn) "
+        "(different limits at +inf and -inf), removable singularities, (ax-sin ax)/x^3, (1-cos ax)/x^2, log(1+ax)/x, "
+        "b atan(a/x) (one-sided) with direction and exp options; richardson on sequences that are exactly polynomial in "
+        "1/n (algebraic exactness, returned weight) and on partial sums; shanks on exact mixtures of m<=3 geometric "
+        "sequences (exactness of column 2m-1, table extension == table from scratch) and on partial sums following "
+        "its docstring (error and cancellation estimates read off the table); levin: exactness on model sequences "
+        "s + omega_n P(1/(n+1)) (Levin) and s + omega_n sum c_j/(n+1)_j (Sidi) for the t and u variants through all four "
+        "interfaces, plus the loop of the docstring (stop when the step between estimates is below eps twice in a row) "
+        "on p-series, alternating and geometric-type series with u/t/v; cohen_alt on alternating moment series with "
+        "the number of terms its convergence theorem prescribes (both interfaces, error estimate == step); sumem on "
+        "[a,inf] with a ~ p/4 (absolute tolerance, as its docstring states) and sumap (inconclusive when its own "
+        "error estimate is above 2^(8-p)). Oracle: closed forms (Hurwitz zeta, digamma, Gamma, exp, hyperbolic "
+        "functions) evaluated by the frozen reference package mpref (mpmath 1.3.0) at 3p+100 bits plus exact Fraction "
+        "corrections for shifted start indices, or exact Fractions alone. Tolerance 2^(10-p) relative to the value (to "
+        "the sum of absolute values for multi-term/multi-dimensional cases) plus the absolute 2^(1-p) that nsum's tol "
+        "option documents; precisions 30..300 bits. NoConvergence with strict=True, the documented ValueError('levin: "
+        "zero weight') and the 0/0 of a Levin transform fed two equal consecutive terms are inconclusive/rejected; a "
+        "wrong value returned without strict is a violation and is re-run with strict=True to tell a silent give-up "
+        "(bucket silent_noconv:*) from a false convergence claim. Non-trivial = infinite range, or dimension >= 2, or "
+        "an explicit acceleration method / direct extrapolator call.")
 ASSUMPTIONS = ["mpref (mpmath 1.3.0) evaluates zeta(s,a), psi, gamma, exp, sinh/cosh/cos, pi correctly to 3p+100 bits",
                "the sequences handed to richardson/shanks/levin/cohen_alt are prepared with the repository's own basic "
                "arithmetic (+,-,*,/ of exact rationals) at the raised working precision",
-               "the reference package's nprod shares the [-inf,b] defect, so only closed forms are used for products"]
+               "the convergence theorem of Cohen, Rodriguez Villegas and Zagier (error <= 2|S|/(3+sqrt 8)^n for "
+               "alternating series whose terms are moments of a positive measure on [0,1])",
+               "the reference package's nsum/nprod are never used as oracles (they share the defects found here)"]
 TECHNIQUE = ("property-based testing (Hypothesis) with closed-form and exact-rational oracles, algebraic exactness "
              "properties for the extrapolators")
 
@@ -47,10 +57,10 @@ def shards(tier):
     return [("finite", 2500 * m), ("finite", 2500 * m),
             ("series", 1800 * m), ("series", 1800 * m), ("series", 1800 * m), ("series", 1800 * m),
             ("dbl", 1800 * m), ("dbl", 1800 * m),
-            ("multi", 600 * m), ("multi", 600 * m),
+            ("multi", 500 * m), ("multi", 500 * m),
             ("nprod", 900 * m), ("nprod", 900 * m),
             ("limit", 2500 * m),
-            ("extrap", 1300 * m), ("extrap", 1300 * m),
+            ("extrap", 3000 * m), ("extrap", 3000 * m),
             ("em", 1200 * m)]
 
 
@@ -240,8 +250,8 @@ def _method(d, g):
     base = g["g"] if g["t"] == "refl" else g
     if conv == "linear":
         ms = [(5, None), (3, "r+s"), (1, "richardson+shanks"), (3, "s"), (1, "shanks"), (2, "l"), (1, "levin"), (1, "r+s+e")]
-        realpos = base["t"] != "cpow" and all(_q(base[k]) > 0 for k in ("r", "s") if k in base)
-        if realpos:
+        realpos = base["t"] not in ("cpow", "binom") and all(_q(base[k]) > 0 for k in ("r", "s") if k in base)
+        if realpos:                     # (Euler-Maclaurin through mp.binomial costs up to a minute per call)
             ms.append((1, "e"))
         if _rho(base) <= Fr(1, 2):
             ms += [(2, "d"), (1, "direct")]
@@ -541,6 +551,15 @@ def _opts(d, g, allow_strict=True):
     return o
 
 
+def _cheap_prec(p, g, o):
+    """Euler-Maclaurin on exponentially decaying terms (derivatives and quadrature of r^x) costs 10-20 s per call
+    above 200 bits: such cases are kept at 30..100 bits"""
+    m = o.get("method") or ""
+    if _conv(g) in ("linear", "super") and any(x in ("e", "euler-maclaurin") for x in m.split("+")):
+        return 30 + (p - 30) % 71
+    return p
+
+
 def _series_atom(d):
     fam = d.weighted([(4, "pow"), (2, "cpow"), (3, "kpow"), (2, "binom"), (3, "expo"), (5, "hurw"), (4, "alt"),
                       (2, "leib"), (2, "tele"), (3, "lor"), (2, "twoexp"), (2, "gauss")])
@@ -554,6 +573,7 @@ def gen_series(d):
     if g["t"] == "kpow" and a == 0 and d.bool():
         a = 1
     o = _opts(d, g)
+    p = _cheap_prec(p, g, o)
     if g["t"] == "leib" and o.get("method") in ("a", "alternating"):
         a = abs(a)          # cohen_alt's class: (-1)^k times a moment sequence, i.e. mk+n > 0 from the first term on
     if d.int(0, 3) == 0:
@@ -587,6 +607,7 @@ def gen_dbl(d):
             g = {"t": "refl", "g": g}
     if o is None:
         o = _opts(d, g)
+    p = _cheap_prec(p, g, o)
     return {"kind": "nsum", "p": p, "ranges": [rng], "terms": [{"c": 1, "gs": [g]}], "opts": o, "iv": d.int(0, 2)}
 
 
@@ -846,7 +867,13 @@ def _acc_atom(d, conv):
 
 def gen_extrap(d):
     k = d.weighted([(3, "rich_exact"), (2, "rich_series"), (3, "shanks_exact"), (2, "shanks_series"), (4, "levin"),
-                    (3, "cohen")])
+                    (3, "levin_exact"), (3, "cohen")])
+    if k == "levin_exact":
+        deg = d.int(0, 5)
+        cs = [d.int(2, 9) * d.choice([1, -1])] + [d.int(-3, 3) for _ in range(deg)]
+        return {"kind": k, "p": _prec(d, 200), "method": d.choice(["levin", "sidi"]), "variant": d.choice(["t", "u"]),
+                "c": cs, "s": [d.int(-40, 40), d.choice([1, 3, 7])], "n": deg + 2 + d.int(0, 6),
+                "iface": d.choice(["update", "update_psum", "step", "step_psum"])}
     if k == "rich_exact":
         N = d.int(0, 10)
         m = d.int(0, N)
@@ -1100,17 +1127,23 @@ def _check_nsum(c, res, mp, M):
         uses_shanks = meth is None or "s" in _mclass(meth).split("+")
         if opts.get("ignore"):
             bucket = "nsum:ignore:%s" % _mclass(meth)
-        if shape != "dbl" and len(terms) == 1 and uses_shanks:
-            # Two shapes of input make Wynn's epsilon table degenerate (an exactly vanishing difference, replaced by
-            # a random multiple of eps in shanks(randomized=True)) although the series converges: a term that is
-            # exactly zero in the interior of the range (k r^k at k = 0), and a first stretch of terms that is
-            # exactly geometric with another ratio than the tail (two-sided exponential summed across k = 0).
-            gg, j0, dirn = _first_index(g0, ranges[0])
-            crossing = (j0 < 0 and dirn > 0) or (j0 > 0 and dirn < 0)
-            if gg["t"] == "kpow" and crossing:
-                bucket = "shanks_degenerate:zero_term:%s" % _mclass(meth)
-            elif gg["t"] == "twoexp" and crossing and abs(j0) >= 2:
-                bucket = "shanks_degenerate:geometric_prefix:%s" % _mclass(meth)
+        if conv == "linear" and len(terms) == 1 and uses_shanks and not opts.get("ignore"):
+            # Inputs on which Wynn's epsilon table degenerates although the series converges.  shanks(randomized=True)
+            # replaces an exactly vanishing difference by a random multiple of eps, and adaptive_extrapolation accepts
+            # |est1 - est2| <= tol before looking at the cancellation estimate.  Three shapes: the partial sums are an
+            # exact (sum of) geometric sequence(s) with dyadic ratio, so the table hits the limit exactly
+            # (exact_geometric); a term that is exactly zero inside the range, k r^k at k = 0 (zero_term); a first
+            # stretch of terms that is exactly geometric with another ratio than the tail, a two-sided exponential
+            # summed across k = 0 (geometric_prefix).
+            sub = "exact_geometric"
+            if shape != "dbl":
+                gg, j0, dirn = _first_index(g0, ranges[0])
+                crossing = (j0 < 0 and dirn > 0) or (j0 > 0 and dirn < 0)
+                if gg["t"] == "kpow" and crossing:
+                    sub = "zero_term"
+                elif gg["t"] == "twoexp" and crossing and abs(j0) >= 2:
+                    sub = "geometric_prefix"
+            bucket = "shanks_degenerate:%s:%s" % (sub, _mclass(meth))
         if conv == "algebraic" and p < 40 and not bucket.startswith("shanks_degenerate"):
             bucket = "lowprec_false_convergence:" + bucket     # maxterms = 10*dps <= 100: four extrapolation attempts only
     else:
@@ -1384,9 +1417,21 @@ def _check_limit(c, res, mp, M):
                 mp.limit(f, pt, strict=True, **dict(opts))
             finally:
                 mp.prec = 53
-    _judge(res, M, p, got, exact, abs(exact), "limit:%s:%s%s" % (
-        "inf" if fam in ("expn", "ratinf", "sgninf") else "finite", _mclass(meth), ":exp" if opts.get("exp") else ""), what,
-        rerun=rerun, NoConvergence=mp.NoConvergence)
+    bucket = "limit:%s:%s%s" % ("inf" if fam in ("expn", "ratinf", "sgninf") else "finite", _mclass(meth),
+                                ":exp" if opts.get("exp") else "")
+    uses_shanks = meth is None or "s" in _mclass(meth).split("+")
+    if fam == "ratinf" and uses_shanks:
+        # two equal consecutive samples f(n) = f(n+1) (a rational function may well have them) make the first
+        # difference of Wynn's epsilon table vanish: the degenerate-table defect of shanks(randomized=True)
+        P, Q = c["P"], c["Q"]
+        ev = lambda n: Fr(sum(co * n ** j for j, co in enumerate(P)), sum(co * n ** j for j, co in enumerate(Q)))
+        pts = [dirn * (2 ** k if opts.get("exp") else k) for k in range(1, 41)]
+        vals = [ev(n) for n in pts]
+        if any(vals[i] == vals[i + 1] for i in range(len(vals) - 1)):
+            bucket = "shanks_degenerate:equal_elements:limit"
+    if p < 40 and not bucket.startswith("shanks_degenerate"):
+        bucket = "lowprec_false_convergence:" + bucket
+    _judge(res, M, p, got, exact, abs(exact), bucket, what, rerun=rerun, NoConvergence=mp.NoConvergence)
 
 
 # ---- direct calls of the extrapolators
@@ -1579,7 +1624,7 @@ def _check_levin(c, res, mp, M):
         done = False
         hits = 0
         try:
-            while n < 1000:
+            while n < 60 + 2 * p:           # (the docstring allows 1000; a series that needs more than this is inconclusive)
                 chunk = 1 if iface.startswith("step") else c["chunk"]
                 for t in _terms_mp(mp, g, a + n, chunk):
                     s = s + t
@@ -1619,39 +1664,126 @@ def _check_levin(c, res, mp, M):
 
 
 def _check_cohen(c, res, mp, M):
+    """cohen_alt on (-1)^k a_k with a_k the moments of a positive measure on [0,1] (1/(k+x)^s with x > 0, r^k):
+    Cohen, Rodriguez Villegas and Zagier prove |S - S_n| <= 2 |S| / (3+sqrt 8)^n for the n-term estimate, so
+    n = (p+14)/2.54 terms must give 2^(10-p) with a large margin -- no stopping heuristic is involved."""
     p, g, a = c["p"], c["g"], c["a"]
     res.cls = "cohen_alt:%s:%s" % (g["t"], c["iface"])
     res.nontrivial = True
     exact = atom_tail(M, g, a)
     wp = p + 20
+    n = int((p + 14) / 2.54) + 2 + c["chunk"]
     mp.prec = wp
     try:
-        eps = mp.mpf(2) ** (-p)
         AC = mp.cohen_alt()
-        A, S = [], []
+        ts = _terms_mp(mp, g, a, n)
+        S = []
         s = mp.zero
-        n = 0
-        done = False
-        hits = 0
-        while n < 1000:
-            for t in _terms_mp(mp, g, a + n, c["chunk"]):
-                s = s + t
-                A.append(t)
-                S.append(s)
-            n += c["chunk"]
-            v, e = AC.update(A) if c["iface"] == "update" else AC.update_psum(S)
-            hits = hits + 1 if (n >= 3 and e < eps * abs(v)) else 0
-            if hits >= 2:
-                done = True
-                break
+        for t in ts:
+            s = s + t
+            S.append(s)
+        if c["iface"] == "update":
+            v0, e0 = AC.update(ts[:n - 1])
+            v, e = AC.update(ts)
+        else:
+            v0, e0 = AC.update_psum(S[:n - 1])
+            v, e = AC.update_psum(S)
+        est_ok = abs(e - abs(v - v0)) <= mp.mpf(2) ** (-p) * abs(v)
     finally:
         mp.prec = 53
-    if not done:
-        res.inconclusive = True
+    what = "cohen_alt().%s on the first %d terms of %s from k=%d, working prec %d, target prec %d" % (
+        c["iface"], n, _atomstr(g), a, wp, p)
+    _judge(res, M, p, v, exact, abs(exact), "cohen_alt:%s" % c["iface"], what)
+    if not est_ok:
+        res.bad("cohen_alt:error_estimate", "%s: the returned error estimate %s is not the distance to the previous "
+                "estimate %s" % (what, e, abs(v - v0)))
+
+
+def _levin_model(c):
+    """exact model sequence s_n = s + omega_n * P_n on which the Levin (P_n = sum_j c_j/(n+1)^j) or Sidi
+    (P_n = sum_j c_j/(n+1)_j) transformation of order > deg P is exact; omega_n = a_n (t) or (n+1) a_n (u) with
+    a_0 = s_0, a_n = s_n - s_{n-1}.  Returns the list of Fractions or None if a denominator vanishes."""
+    s = _q(c["s"])
+    cs = c["c"]
+
+    def P(n):
+        tot = Fr(0)
+        for j, cf in enumerate(cs):
+            if c["method"] == "levin":
+                den = (n + 1) ** j
+            else:
+                den = 1
+                for i in range(j):
+                    den *= n + 1 + i
+            tot += Fr(cf, den)
+        return tot
+    w = (lambda n: Fr(1)) if c["variant"] == "t" else (lambda n: Fr(n + 1))
+    q0 = w(0) * P(0)
+    if q0 == 1:
+        return None
+    seq = [s / (1 - q0)]                       # s_0 - s = w_0 s_0 P_0
+    for n in range(1, c["n"]):
+        qn = w(n) * P(n)
+        if qn == 1 or qn == 0:
+            return None
+        e = (seq[-1] - s) * qn / (qn - 1)      # e_n = w_n (e_n - e_{n-1}) P_n
+        seq.append(s + e)
+    if any(seq[i] == seq[i - 1] for i in range(1, len(seq))) or seq[0] == 0:
+        return None
+    # the transformation of order k = len-1 is numerator/denominator with denominator
+    # sum_j (-1)^j C(k,j) (j+1)^(k-1) / omega_j  (Sidi: Pochhammer (j+1)_(k-1)); a vanishing denominator is 0/0
+    k = len(seq) - 1
+    a = [seq[0]] + [seq[i] - seq[i - 1] for i in range(1, len(seq))]
+    den = Fr(0)
+    for j in range(k + 1):
+        if c["method"] == "levin":
+            wt = Fr(j + 1) ** (k - 1) if k >= 1 else Fr(1)
+        else:
+            wt = Fr(1)
+            for i in range(k - 1):
+                wt *= j + 1 + i
+        den += (-1) ** j * math.comb(k, j) * wt / (w(j) * a[j])
+    if den == 0:
+        return None
+    return seq
+
+
+def _check_levin_exact(c, res, mp, M):
+    p = c["p"]
+    res.cls = "levin:exact:%s:%s:%s" % (c["method"], c["variant"], c["iface"])
+    res.nontrivial = True
+    seqx = _levin_model(c)
+    if seqx is None:
+        res.rejected = True
         return
-    _judge(res, M, p, v, exact, abs(exact), "cohen_alt:%s" % c["iface"],
-           "cohen_alt().%s on %s from k=%d, stopped after %d terms, working prec %d, target prec %d" % (
-               c["iface"], _atomstr(g), a, n, wp, p))
+    s = _q(c["s"])
+    wp = 3 * p + 60
+    iface = c["iface"]
+    mp.prec = wp
+    try:
+        S = [mp.mpf(v.numerator) / v.denominator for v in seqx]
+        A = [S[0]] + [S[i] - S[i - 1] for i in range(1, len(S))]
+        L = mp.levin(method=c["method"], variant=c["variant"])
+        try:
+            if iface == "update":
+                v, e = L.update(A)
+            elif iface == "update_psum":
+                v, e = L.update_psum(S)
+            elif iface == "step":
+                for t in A:
+                    v, e = L.step(t)
+            else:
+                for t in S:
+                    v, e = L.step_psum(t)
+        except ZeroDivisionError:
+            res.rejected = True
+            return
+    finally:
+        mp.prec = 53
+    scale = MQ(M, max(abs(x) for x in seqx))
+    _judge(res, M, p, v, MQ(M, s), scale, "levin:exactness:%s:%s" % (c["method"], c["variant"]),
+           "levin(method=%s, variant=%s).%s on the %d-element model sequence s_n = %s + omega_n*P_n, P coefficients %s, "
+           "working prec %d" % (c["method"], c["variant"], iface, len(seqx), s, c["c"], wp), absfloor=False)
 
 
 def _check_sumem(c, res, mp, M):
@@ -1697,7 +1829,7 @@ def _check_sumap(c, res, mp, M):
 CHECKS = {"nsum": _check_nsum, "nprod_finite": _check_nprod_finite, "sumem_poly": _check_sumem_poly,
           "nprod": _check_nprod, "limit": _check_limit, "rich_exact": _check_rich_exact,
           "rich_series": _check_rich_series, "shanks_exact": _check_shanks_exact,
-          "shanks_series": _check_shanks_series, "levin": _check_levin, "cohen": _check_cohen,
+          "shanks_series": _check_shanks_series, "levin": _check_levin, "cohen": _check_cohen, "levin_exact": _check_levin_exact,
           "sumem": _check_sumem, "sumap": _check_sumap}
 
 
